@@ -15,6 +15,7 @@ Nothing of FEAT3 is executed.  The module contains
 The *meaning* of the extracted tables is decided in checks/c10.py.
 """
 import re
+from fractions import Fraction
 
 
 class Unsupported(Exception):
@@ -104,7 +105,7 @@ def atom_name(a):
     if k == "num":
         return "num<%s,%d>" % (a[1], a[2])
     if k == "loop":
-        return "i"
+        return "i" if a[1] == 0 else "i_%d" % a[1]
     if k == "sim":
         return "map#%d(%d,%d)" % (a[1], a[2], a[3])
     if k == "tim":
@@ -113,6 +114,8 @@ def atom_name(a):
         return "target<%d>[%s]" % (a[1], a[2])
     if k == "tnum":
         return "tnum<%d>" % a[1]
+    if k == "uninit":
+        return "<uninitialised array element %d>" % a[1]
     return "%s" % "_".join(str(x) for x in a)
 
 
@@ -146,7 +149,8 @@ class ElemRef:
     def get(self):
         v = self.lst[self.i]
         if v is None:
-            raise Unsupported("read of an unset array element [%d]" % self.i)
+            # element of a local C array that no statement has written: an uninitialised read in C++
+            return Lin.atom(("uninit", self.i))
         return v
 
     def set(self, v, ev, node):
@@ -434,12 +438,19 @@ class SymEval:
         if k == "Member":
             b = self.eval(n["b"], env, fn)
             if isinstance(b, UObj):
+                if n["n"] not in b.fields:
+                    m = re.search(r"\[(\d+)\]$", fn.ntype(n) or "")
+                    if m:
+                        b.fields[n["n"]] = Arr([None] * int(m.group(1)))   # member array, default-initialised
                 r = FieldRef(b, n["n"])
                 return r if want_lvalue else r.get()
             if "v" in n:
                 return Lin(int(n["v"]))
             raise Unsupported("member %s of %r (line %s)" % (n["n"], b, n.get("l")))
         if k == "Cast":
+            if n.get("to") == "void":
+                self.eval(n["e"], env, fn)
+                return None
             return self.eval(n["e"], env, fn, want_lvalue)
         if k == "Un":
             op = n["op"]
@@ -476,7 +487,7 @@ class SymEval:
                 return self.truth(self.eval(n["rhs"], env, fn), n)
             a = self.rvalue(self.eval(n["lhs"], env, fn))
             b = self.rvalue(self.eval(n["rhs"], env, fn))
-            return self.binop(op, a, b, n)
+            return self.binop(op, a, b, n, fn.ntype(n) if fn is not None else "")
         if k == "Assign":
             lv = self.eval(n["lhs"], env, fn, want_lvalue=True)
             rv = self.rvalue(self.eval(n["rhs"], env, fn))
@@ -521,7 +532,21 @@ class SymEval:
             return v
         raise Unsupported("subscript of %r (line %s)" % (b, n.get("l")))
 
-    def binop(self, op, a, b, n):
+    @staticmethod
+    def frac(x):
+        if isinstance(x, Fraction):
+            return x
+        return Fraction(lin(x).as_int())
+
+    def binop(self, op, a, b, n, ty=""):
+        floating = re.sub(r"\bconst\b", "", ty or "").strip() in ("double", "float", "long double", "__float128")
+        if op in ("+", "-", "*", "/") and (isinstance(a, Fraction) or isinstance(b, Fraction) or (op == "/" and floating)):
+            fa, fb = self.frac(a), self.frac(b)
+            if op == "/":
+                if fb == 0:
+                    raise Unsupported("division by zero")
+                return fa / fb
+            return fa + fb if op == "+" else fa - fb if op == "-" else fa * fb
         if op in ("+", "-", "*"):
             a, b = lin(a), lin(b)
             return a + b if op == "+" else a - b if op == "-" else a * b
@@ -591,6 +616,9 @@ class SymEval:
                 target = self.lookup(n)
                 if target is not None and isinstance(obj, UObj):
                     return self.run(target, [idx], this=obj)
+            if op == "=" and hasattr(obj, "op_assign") and len(argn) == 2:
+                obj.op_assign(self, self.rvalue(self.eval(argn[1], env, fn)), n)
+                return obj
             raise Unsupported("operator%s on %r not modelled (line %s)" % (op, obj, n.get("l")))
         # free / static function with a body
         target = self.lookup(n)
@@ -639,8 +667,10 @@ def extract_table2(fn):
                     table, tdecl = rows, v["d"]
         elif s["k"] == "Return":
             ret = s
-        elif s["k"] in ("Call",):
+        elif s["k"] == "Call" and s.get("callee") == "FEAT::assertion":
             continue    # ASSERT in debug parses
+        elif s["k"] == "Cast" and s.get("to") == "void" and s["e"].get("k") == "Int":
+            continue    # ASSERT(...) expands to void(0) in release parses
         else:
             raise Unsupported("%s: statement %s in a table function" % (fn.full, s["k"]))
     if table is None or ret is None or len(fn.params) != 2:
